@@ -296,7 +296,7 @@ func (runInfo *runInfoStruct) callVMFunctionDirect(f reflect.Value, callExpr *as
 		if runInfo.err != nil {
 			return true
 		}
-		args = append(args, runInfo.rv)
+		args = append(args, copyOfElement(runInfo.rv))
 	}
 
 	if !runInfo.options.Debug {
@@ -435,6 +435,7 @@ func (runInfo *runInfoStruct) makeCallArgs(rt reflect.Type, isRunVMFunction bool
 		if runInfo.err != nil {
 			return nil, false
 		}
+		runInfo.rv = copyOfElement(runInfo.rv)
 		if isRunVMFunction {
 			args = append(args, reflect.ValueOf(runInfo.rv))
 		} else {
@@ -460,6 +461,7 @@ func (runInfo *runInfoStruct) makeCallArgs(rt reflect.Type, isRunVMFunction bool
 		if runInfo.err != nil {
 			return nil, false
 		}
+		runInfo.rv = copyOfElement(runInfo.rv)
 		if runInfo.err != nil {
 			return nil, false
 		}
@@ -537,6 +539,7 @@ func (runInfo *runInfoStruct) makeCallArgs(rt reflect.Type, isRunVMFunction bool
 		if runInfo.err != nil {
 			return nil, false
 		}
+		runInfo.rv = copyOfElement(runInfo.rv)
 		if isRunVMFunction {
 			args = append(args, reflect.ValueOf(runInfo.rv))
 		} else {
@@ -561,6 +564,7 @@ func (runInfo *runInfoStruct) makeCallArgs(rt reflect.Type, isRunVMFunction bool
 			if runInfo.err != nil {
 				return nil, false
 			}
+			runInfo.rv = copyOfElement(runInfo.rv)
 			runInfo.rv, runInfo.err = convertReflectValueToType(runInfo.rv, sliceType)
 			if runInfo.err != nil {
 				runInfo.err = newStringError(callExpr.SubExprs[indexExpr],
@@ -586,6 +590,7 @@ func (runInfo *runInfoStruct) makeCallArgs(rt reflect.Type, isRunVMFunction bool
 	if runInfo.err != nil {
 		return nil, false
 	}
+	runInfo.rv = copyOfElement(runInfo.rv)
 	runInfo.rv, runInfo.err = convertReflectValueToType(runInfo.rv, sliceType)
 	if runInfo.err != nil {
 		runInfo.err = newStringError(callExpr.SubExprs[indexExpr],
